@@ -117,7 +117,7 @@ def random_program(rng, n, alphabet=None, loops=False):
             # feed it plausible operands
             if s in BIN_OPS:
                 out += [P(word(rng)), P(word(rng) if rng.random() < 0.5 else small(rng, 70)), op(s)]
-            elif s in ("DUPF", "SWAPI", "LODS", "LOD", "FREE", "ALOC", "RES", "NOT", "PNCIF", "PDLEN", "LODP"):
+            elif s in ("DUPF", "SWAPI", "LODS", "LOD", "FREE", "ALOC", "RES", "NOT", "PNCIF", "DLEN", "LODP"):
                 out += [P(small(rng, 6)), op(s)]
             elif s in ("STOS", "STO"):
                 out += [P(word(rng)), P(small(rng, 6)), op(s)]
@@ -133,7 +133,7 @@ def random_program(rng, n, alphabet=None, loops=False):
             elif s == "STOR":
                 k = small(rng, 3)
                 out += [P(word(rng)) for _ in range(k)] + [P(k), P(small(rng, 5)), op(s)]
-            elif s == "PDATA":
+            elif s == "DATA":
                 out += [P(small(rng, 3)), P(small(rng, 3)), P(small(rng, 3)), op(s)]
             elif s == "SHA2":
                 k = small(rng, 3)
@@ -159,3 +159,234 @@ def smoke_cases(rng, n):
         cases.append(case(ops, stack=st, mem=mem, pm=pm, sols=sols, index=rng.randrange(2),
                           mode=rng.choice(["ops", "ops", "bytes", "eval"])))
     return cases
+
+
+def as_oracle(c, fam):
+    assert c.startswith("prog ")
+    return fam + c[4:]
+
+
+RICH_SOLS = [(ADDR_A, ADDR_B, [[1, 2, 3], [], [7]], [([1], [2])]), (ADDR_C, ADDR_A, [[9]], [])]
+
+
+def std_entries():
+    """state table: distinct answers for pre/post, own/extern contract, a few keys and counts"""
+    es = []
+    for view in (0, 1):
+        for contract in (ADDR_A, ADDR_C):
+            for key in ([], [0], [1], [1, 2], [I64_MAX]):
+                for n in (0, 1, 2, 3):
+                    tag = view * 1000 + (0 if contract == ADDR_A else 500) + len(key) * 10 + n
+                    vals = [[tag + j] * (j % 3) for j in range(n)]
+                    es.append((view, contract, key, n, vals))
+    es.append((0, ADDR_A, [9], 1, 7))            # an error
+    es.append((1, ADDR_A, [9], 1, [[1, 2, 3, 4, 5, 6, 7, 8, 9, 10]]))
+    es.append((0, ADDR_A, [8], 2, [[1], [2], [3]]))   # more values than requested
+    es.append((0, ADDR_A, [7], 3, [[1]]))             # fewer values than requested
+    return es
+
+
+C05_ALPHABET = ["POP", "DUP", "DUPF", "SWAP", "SWAPI", "SEL", "SLTR", "REP", "REPE", "RES", "LODS", "STOS", "DROP",
+                "EQ", "EQRA", "EQST", "NOT", "ADD", "SUB", "MUL", "DIV", "MOD", "SHL", "SHR", "SHRI", "BAND",
+                "ALOC", "FREE", "LOD", "STO", "LODR", "STOR", "JMPIF", "HLTIF", "PNCIF", "HLT", "REPC", "DATA",
+                "DLEN", "DSLT", "THIS", "THISC", "PEX", "SHA2", "KRNG", "KREX", "PKRNG", "PKREX", "COM", "COME",
+                "LODP", "LODPR"]
+C05_PUSHES = [I64_MIN, -1, 0, 1, 2, 3, 63, 64, 4096, I64_MAX]
+
+
+def c05_cases(rng, tier):
+    rows()
+    cases = []
+    ents = std_entries()
+    alpha = [op(s) for s in C05_ALPHABET if s in _by_short] + [P(w) for w in C05_PUSHES]
+    # (a) bounded-exhaustive short programs over boundary constants, from two initial stacks
+    init_stacks = [[], [I64_MIN, 1, 2, 1]]
+    for a in alpha:
+        for st in init_stacks:
+            cases.append(case([a], stack=st, sols=RICH_SOLS, entries=ents, mem=[5, 6]))
+    pairs = [(a, b) for a in alpha for b in alpha]
+    if tier == "quick":
+        pairs = rng.sample(pairs, 900)
+    for a, b in pairs:
+        cases.append(case([a, b], stack=[3, I64_MIN, 1], sols=RICH_SOLS, entries=ents, mem=[5, 6]))
+    ntriples = 600 if tier == "quick" else 40000
+    for _ in range(ntriples):
+        ops3 = [rng.choice(alpha) for _ in range(3)]
+        cases.append(case(ops3, stack=rng.choice([[], [1, 1], [2, 0, 1], [I64_MAX, I64_MIN, 1, 1]]),
+                          sols=RICH_SOLS, entries=ents, mem=rng.choice([[], [1, 2, 3]])))
+    # (b) states at the limits
+    full = [1] * STACK_LIMIT
+    almost = [1] * (STACK_LIMIT - 1)
+    for s in ("DUP", "DUPF", "RES", "LODS", "THIS", "THISC", "SHA2", "DATA", "DSLT", "REPC", "LODR", "PEX", "ALOC", "COM", "SWAP", "ADD", "SEL"):
+        for st in (full, almost, [0] * (STACK_LIMIT - 3) + [0, 0, 0], [1] * (STACK_LIMIT - 5) + [0, 0, 3, 0, 0]):
+            cases.append(case([op(s)], stack=st, sols=RICH_SOLS, entries=ents, mem=[1, 2, 3, 4], rep=[(1, 5, 0)]))
+    for w in (0, 1, 2, 4095, 4096, 4097, I64_MAX):
+        cases.append(case([P(w), op("RES")], stack=[], sols=RICH_SOLS))
+        cases.append(case([P(w), op("RES")], stack=[0], sols=RICH_SOLS))
+    bigmem = [0] * MEM_LIMIT
+    for w in (0, 1, 2, 10239, 10240, 10241, I64_MAX, -1):
+        cases.append(case([P(w), op("ALOC")], mem=[], sols=RICH_SOLS))
+        cases.append(case([P(w), op("ALOC")], mem=bigmem[:-1], sols=RICH_SOLS))
+        cases.append(case([P(w), op("ALOC")], mem=bigmem, sols=RICH_SOLS))
+    # repeat stack at its limit
+    slots = [(1, 3, 0)] * STACK_LIMIT
+    cases.append(case([P(2), P(1), op("REP")], rep=slots, sols=RICH_SOLS))
+    cases.append(case([P(2), P(0), op("REP")], rep=slots[:-1], sols=RICH_SOLS))
+    cases.append(case([op("REPE"), op("REPC")], rep=slots, sols=RICH_SOLS))
+    # nested compute / compute filling memory / parent stack full
+    cases.append(case([P(2), op("COM"), P(2), op("COM"), op("COME")], sols=RICH_SOLS))
+    cases.append(case([P(3), op("COM"), P(4000), op("ALOC"), op("COME")], sols=RICH_SOLS, mem=[1] * 100))
+    cases.append(case([P(2), op("COM"), P(5000), op("ALOC"), op("COME")], sols=RICH_SOLS, mem=[1] * 100))
+    cases.append(case([P(2), op("COM"), P(5), op("COME")], stack=full[:-1], sols=RICH_SOLS))
+    for b in (-1, 0, 1, 2, 7, 4097, 1 << 40, I64_MAX, I64_MIN):
+        cases.append(case([P(b), op("COM"), op("HLT")], sols=RICH_SOLS))
+    # jump distances incl. i64 extremes
+    for d in (I64_MIN, I64_MIN + 1, -3, -1, 0, 1, 2, I64_MAX):
+        for c in (0, 1, 2):
+            cases.append(case([P(0), P(d), P(c), op("JMPIF"), P(7)], sols=RICH_SOLS))
+    # gas arithmetic near the edge of u64
+    for cost in (0, 1, 1 << 62, U64_MAX):
+        for lim in (0, 1, 1 << 63, U64_MAX):
+            cases.append(case([P(3), op("COM"), P(1), op("POP"), op("COME"), op("HLT")], sols=RICH_SOLS, cost=(cost, ()), limit=lim))
+    # (c) long random programs
+    n = 300 if tier == "quick" else 20000
+    for _ in range(n):
+        ops_ = random_program(rng, rng.randrange(5, 60), alphabet=[s for s in C05_ALPHABET if s not in ("COM", "COME", "HLT", "JMPIF", "REP", "REPE")] + ["PUSH"] * 8)
+        cases.append(case(ops_, stack=rand_stack(rng), mem=rand_stack(rng, rng.choice([0, 3, 9])), sols=RICH_SOLS, entries=ents,
+                          index=rng.randrange(2), pm=[[4, 5]] if rng.random() < 0.2 else []))
+    # raw byte strings as bytecode
+    for _ in range(100 if tier == "quick" else 5000):
+        raw = bytes(rng.choice([r["opcode"] for r in _rows] + [rng.randrange(256)]) for _ in range(rng.randrange(1, 20)))
+        cases.append(case(raw=raw, mode="bytes", stack=rand_stack(rng), sols=RICH_SOLS, entries=ents))
+    cases += op1_cases(rng, tier)
+    oracles = [as_oracle(c, "o_steps") for c in cases]
+    return cases, oracles
+
+
+POOL = BOUNDARY_WORDS
+SMALLPOOL = [I64_MIN, -1, 0, 1, 2, 3, 4, 5, 63, 64, 4096, 10240, I64_MAX]
+
+
+def enc_set(items):
+    """[[elems..]..] -> words of the set encoding: each item `elems.., len`, whole thing followed by total length"""
+    ws = []
+    for it in items:
+        ws += list(it) + [len(it)]
+    return ws + [len(ws)]
+
+
+def op1_cases(rng, tier):
+    """Every Stack/Pred/Alu/Memory/ParentMemory op x boundary operand tuples x stack/memory shapes."""
+    rows()
+    cs = []
+    bases = [[], [7, -8]]
+
+    def add(o, stack, **kw):
+        cs.append(case([o] if not isinstance(o, list) else o, stack=stack, sols=RICH_SOLS, **kw))
+
+    # binary ALU / Pred ops: the full boundary grid
+    for s in BIN_OPS:
+        for a in POOL:
+            for b in POOL:
+                add(op(s), bases[(a + b) & 1] + [a, b])
+        add(op(s), [])
+        add(op(s), [1])
+        add(op(s), [1] * STACK_LIMIT)
+    for a in POOL:
+        add(op("NOT"), [a])
+        add(op("NOT"), [5, a])
+    add(op("NOT"), [])
+    # Push / Pop / Dup / Swap at sizes 0,1,2,limit-1,limit
+    for n in (0, 1, 2, STACK_LIMIT - 1, STACK_LIMIT):
+        st = list(range(n))
+        for w in (I64_MIN, -1, 0, I64_MAX):
+            add(P(w), st)
+        for s in ("POP", "DUP", "SWAP"):
+            add(op(s), st)
+    # DupFrom / SwapIndex / Load(stack) : index grid x shapes
+    for shape in ([], [11], [11, 22, 33], [1, 2, 3, 4, 5, 6]):
+        for ix in POOL:
+            add(op("DUPF"), shape + [ix])
+            add(op("SWAPI"), shape + [ix])
+            add(op("LODS"), shape + [ix])
+            add(op("STOS"), shape + [99, ix])
+            add(op("DROP"), shape + [ix])
+            add(op("RES"), shape + [ix])
+    for n in (4090, 4094, 4095):
+        for ln in (0, 1, 2, 5, 6, 7):
+            add(op("RES"), [3] * n + [ln])
+    # Select
+    for c in POOL:
+        add(op("SEL"), [10, 20, c])
+        add(op("SEL"), [20, c])
+        add(op("SEL"), [c])
+    # SelectRange / EqRange : arrays of length k with every kind of length word and condition
+    for k in (0, 1, 2, 3):
+        for extra in ([], [9, 9]):
+            a = [100 + i for i in range(k)]
+            b = [200 + i for i in range(k)]
+            for lw in sorted({k, k + 1, k - 1, 0, -1, 1, 2, I64_MAX, (1 << 62), I64_MIN}):
+                for c in (0, 1, 2, -1, I64_MIN):
+                    add(op("SLTR"), extra + a + b + [lw, c])
+                add(op("EQRA"), extra + a + b + [lw])
+                add(op("EQRA"), extra + a + a + [lw])
+    add(op("SLTR"), [1])
+    add(op("SLTR"), [])
+    add(op("EQRA"), [])
+    # a long range
+    add(op("SLTR"), list(range(2000)) + list(range(5000, 7000)) + [2000, 1])
+    add(op("EQRA"), list(range(2000)) + list(range(2000)) + [2000])
+    add(op("EQRA"), list(range(2000)) + list(range(1999)) + [7, 2000])
+    # EqSet: equal as sets (order, duplicates), unequal, empty elements, malformed encodings
+    sets = [[], [[]], [[1]], [[1], [2]], [[2], [1]], [[1], [1]], [[1, 2], [3]], [[3], [1, 2]], [[], [5]], [[5]],
+            [[1, 2, 3]], [[1], [2], [3]], [[I64_MIN], [I64_MAX]]]
+    for l in sets:
+        for r in sets:
+            add(op("EQST"), [4] + enc_set(l) + enc_set(r))
+    for bad in ([1, -1, 2], [5, 9, 3], [1, 1, 7, 3], [-1], [I64_MAX], [1, 2, I64_MIN, 3], [0, 1, 1, 3]):
+        add(op("EQST"), enc_set([[1]]) + bad)
+        add(op("EQST"), bad + enc_set([[1]]))
+    add(op("EQST"), [])
+    add(op("EQST"), [0])
+    add(op("EQST"), [0, 0])
+    # Memory ops
+    mems = [[], [1, 2, 3, 4, 5], [0] * (MEM_LIMIT - 1), [0] * MEM_LIMIT]
+    for mem in mems:
+        for a in POOL:
+            add(op("ALOC"), [5, a], mem=mem)
+            add(op("FREE"), [5, a], mem=mem)
+            add(op("LOD"), [5, a], mem=mem)
+            add(op("STO"), [5, 77, a], mem=mem)
+    for mem in ([], [1, 2, 3, 4, 5], [3] * MEM_LIMIT):
+        for a in SMALLPOOL:
+            for sz in SMALLPOOL:
+                add(op("LODR"), [a, sz], mem=mem)
+                add(op("LODPR"), [a, sz], pm=[mem])
+        for a in SMALLPOOL:
+            for k in (0, 1, 2, 5):
+                for lw in sorted({k, k + 1, -1, I64_MAX}):
+                    add(op("STOR"), [8] + [40 + i for i in range(k)] + [lw, a], mem=mem)
+    add(op("LODR"), [0, 4096], mem=[1] * 5000)
+    add(op("LODR"), [0, 4095], mem=[1] * 5000, )
+    for a in POOL:
+        add(op("LODP"), [a], pm=[[9, 8, 7]])
+        add(op("LODP"), [a], pm=[])
+    add(op("STOR"), [], mem=[1])
+    add(op("STOR"), [0], mem=[1])
+    add(op("ALOC"), [], mem=[1])
+    cs2 = [c for c in cs if c]
+    return cs2
+
+
+def c08_cases(rng, tier):
+    cases = op1_cases(rng, tier)
+    # short programs over the data ops, long random ones
+    data_alpha = ["POP", "DUP", "DUPF", "SWAP", "SWAPI", "SEL", "SLTR", "RES", "LODS", "STOS", "DROP", "EQ", "EQRA", "GT",
+                  "LT", "GTE", "LTE", "AND", "OR", "NOT", "EQST", "BAND", "BOR", "ADD", "SUB", "MUL", "DIV", "MOD", "SHL",
+                  "SHR", "SHRI", "ALOC", "FREE", "LOD", "STO", "LODR", "STOR", "LODP", "LODPR", "PUSH", "PUSH", "PUSH"]
+    n = 1500 if tier == "quick" else 60000
+    for _ in range(n):
+        ops_ = random_program(rng, rng.randrange(2, 25), alphabet=data_alpha)
+        cases.append(case(ops_, stack=rand_stack(rng), mem=rand_stack(rng, rng.choice([0, 3, 9])), sols=RICH_SOLS,
+                          pm=[[4, 5, 6]] if rng.random() < 0.3 else []))
+    return cases, []
